@@ -84,7 +84,10 @@ def edges_of(db, f):
                 continue
             pred = _fits(x["a"], kenv, f)
             if fn.get("q"):
-                out.append((fn["q"], x, lambda g: True))
+                qq = fn["q"]
+                if not db.by_q.get(qq) and fn.get("k") == "mem" and astx.is_this(fn.get("b")) and rec and db.by_q.get(rec + "::" + n):
+                    qq = rec + "::" + n       # canonical `type-parameter-i-j` spelling of a partial specialisation's member
+                out.append((qq, x, lambda g: True))
                 continue
             for c in sorted(set(fn.get("cands") or [])):
                 out.append((c, x, pred))
